@@ -68,8 +68,10 @@ def h_perm(H):
                 so, inds = run_geometry(it, vkey, cm, True)
                 tag = f"{vkey}.{enc}"
                 i, i2, j = z3.Ints("i i2 j")
-                log = it.ctx.sort_log[-1]
-                pinv = log["inv"]
+                slog = getattr(it.ctx, "sort_log", [])
+                # witness of "each site listed once": the inverse permutation of the sort specification; if the code did not sort at all the
+                # only candidate is the identity (and the ordering obligation below decides whether leaving the table as it is was right)
+                pinv = slog[-1]["inv"] if slog else (lambda q: q)
                 it.ctx.oblige(f"keys.{tag}", z3.BoolVal(set(so) == set(un) and {"x", "y", "row", "col", "shank", "adc", "sample_shift", "ind"} <= set(so)), "post")
                 it.ctx.oblige(f"unsorted_identity.{tag}", z3.And(A.T(ind_un.shape[0]) == n, A.forall([i], lambda: z3.Implies(z3.And(i >= 0, i < n), ind_un.read((i,)) == i))), "post")
                 it.ctx.oblige(f"perm.range.{tag}", z3.And(A.T(inds.shape[0]) == n, A.forall([i], lambda: z3.Implies(z3.And(i >= 0, i < n), z3.And(inds.read((i,)) >= 0, inds.read((i,)) < n)))), "post")
